@@ -199,7 +199,7 @@ func (c *Core) forward(bp BundleDescriptor) {
 
 	if hcBlock, err := bp.MustBundle().ExtensionBlock(bpv7.ExtBlockTypeHopCountBlock); err == nil {
 		hc := hcBlock.Value.(*bpv7.HopCountBlock)
-		hc.Increment()
+		hopCountExceeded := hc.Increment()
 		hcBlock.Value = hc
 
 		log.WithFields(log.Fields{
@@ -207,7 +207,7 @@ func (c *Core) forward(bp BundleDescriptor) {
 			"hop_count": hc,
 		}).Debug("Bundle contains an hop count block")
 
-		if exceeded := hc.IsExceeded(); exceeded {
+		if exceeded := hc.IsExceeded() || hopCountExceeded; exceeded {
 			log.WithFields(log.Fields{
 				"bundle":    bp.ID(),
 				"hop_count": hc,
